@@ -21,4 +21,20 @@ func init() {
 		Old: "\treturn res.mailbox.length(), nil\n", New: "\tn := res.mailbox.length()\n\tif n.AsNumber() > 1 {\n\t\treturn tla.MakeNumber(1), nil\n\t}\n\treturn n, nil\n", Expect: "asks-the-mailbox"})
 	seed(Seed{Name: "queue-append-under-new-guard", Prop: "C15", Rule: "LOCK-DECISION", File: "systems/locksvc/locksvc.tla",
 		Old: "                q := Append(q, msg.from);\n", New: "                if (Len(q) < NumClients) {\n                    q := Append(q, msg.from);\n                };\n", Expect: "queues-every-requester"})
+	// round 9
+	seed(Seed{Name: "ack-of-old-state-uses-fresh-budget", Prop: "C13", Rule: "CRDT-ARM", File: "distsys/resources/crdt.go",
+		Old: "\t\t\t\t\tif res.needBroadcastEpoch == epoch {\n\t\t\t\t\t\tres.needBroadcastCount = max(res.needBroadcastCount-1, 0)\n\t\t\t\t\t}\n", New: "\t\t\t\t\t_ = epoch\n\t\t\t\t\tres.needBroadcastCount = max(res.needBroadcastCount-1, 0)\n", Expect: "counts-only-for-the-state-it-acknowledges"})
+	seed(Seed{Name: "dial-only-small-clusters", Prop: "C13", Rule: "CRDT-DIAL", File: "distsys/resources/crdt.go",
+		Old: "\t\tif _, ok := res.conns.Get(id); !ok {\n", New: "\t\tif _, ok := res.conns.Get(id); !ok && len(res.peerIds) < 8 {\n", Expect: "dials-every-unconnected-peer"})
+	seed(Seed{Name: "duplicate-message-waved-through", Prop: "C11", Rule: "TPC-STALE", File: "distsys/resources/twopc.go",
+		Old: "\tif twopc.senderTimes[arg.Sender] > arg.SenderTime {\n", New: "\tif twopc.senderTimes[arg.Sender] >= arg.SenderTime {\n", Expect: "processes-unless-strictly-older"})
+	seed(Seed{Name: "redial-request-ignored", Prop: "C19", Rule: "FD-DIAL", File: "distsys/resources/fd.go",
+		Old: "\tif res.client == nil || res.reDial {\n", New: "\tif res.client == nil {\n", Expect: "dials-exactly-when-needed"})
+	seed(Seed{Name: "monitor-serves-inline", Prop: "C19", Rule: "FD-MONITOR", File: "distsys/resources/fd.go",
+		Old: "\t\tgo m.server.ServeConn(conn)\n", New: "\t\tm.server.ServeConn(conn)\n", Expect: "own-server-goroutine"})
+	seed(Seed{Name: "abort-resets-variable-clock", Prop: "C18", Rule: "CLK-MONOTONE", File: "distsys/archetyperesource.go",
+		Old: "func (res *LocalArchetypeResource) Abort(ArchetypeInterface) chan struct{} {\n\tres.value = res.oldValue\n", New: "func (res *LocalArchetypeResource) Abort(ArchetypeInterface) chan struct{} {\n\tres.value = res.oldValue\n\tres.clock = tla.VClock{}\n", Expect: "clock#"})
+	seed(Seed{Name: "fd-loop-ends-on-crash-verdict", Prop: "C17", Rule: "FD-HANDSHAKE", File: "distsys/resources/fd.go",
+		Old: "\t\t\tres.setState(reply)\n", New: "\t\t\tres.setState(reply)\n\t\t\tif reply == failed {\n\t\t\t\tbreak loop\n\t\t\t}\n", Expect: "leaves-only-with-the-stop-token"})
 }
+
